@@ -214,3 +214,92 @@ Proof.
   - go.
   - go.
 Qed.
+
+(* ------------------------------------------------------------------------------------------ *)
+(* all un-hoisted trees *)
+Ltac ops :=
+  repeat match goal with
+  | F : prefix_of ?op = Some ?p |- _ => is_var p;
+      pose proof (prefix_def _ _ F); pose proof (prefix_neg _ _ F); pose proof (prefix_imm _ _ F);
+      pose proof (prefix_pct _ _ F); destruct p
+  | F : postfix_of ?op = Some ?p |- _ => is_var p; pose proof (postfix_add _ _ F); destruct p
+  end;
+  repeat match goal with H : String.eqb _ _ = match _ with _ => _ end |- _ => cbv iota in H end.
+Ltac rw_all_eqb :=
+  repeat match goal with H : String.eqb ?a ?b = _ |- context[String.eqb ?a ?b] => rewrite H end.
+Ltac pct_absurd P :=
+  solve [ exfalso; simpl in P;
+          repeat match goal with H : String.eqb ?a ?b = _ |- _ =>
+            match type of P with context[String.eqb a b] => rewrite H in P end end;
+          simpl in P; repeat rewrite orb_true_r in P; discriminate P ].
+Ltac go2 P := ops; try pct_absurd P; cbn [T.regp T.paren_reg]; rw_all_eqb; go.
+
+Lemma plain_agree : forall t t', forget t = Some t' -> T.has_percent t = false ->
+  plain_view t = cl_view (C.cascade t').
+Proof.
+  intros t t' H P.
+  destruct t; inv_forget H; unfold plain_view, T.plain_plan, C.cascade.
+  - go.
+  - go.
+  - assert (F' := F). apply String.eqb_eq in F'. destruct nec_label.
+    + cbn. rw_forget. reflexivity.
+    + cbn. unfold C.b_reg, C.with_reg, C.try_reg. rewrite F'. change (C.reg_of_name name) with (T.reg_of_name name).
+      cbn [T.regp]. destruct (T.reg_of_name name) eqn:RN.
+      * unfold cl_view, C.field_of; cbn. reflexivity.
+      * cbn. rw_forget. reflexivity.
+  - go.
+  - go.
+  - go.
+  - ops; try pct_absurd P; cbn [T.regp T.paren_reg]; rw_all_eqb; try solve [go].
+    destruct t; inv_forget F0; try solve [go2 P].
+    assert (F' := F1). apply String.eqb_eq in F'. destruct nec_label.
+    { go. }
+    unf. cb. rewrite F'. change (C.reg_of_name name) with (T.reg_of_name name).
+    destruct (T.reg_of_name name) eqn:RN; cb; rw_forget.
+    { unfold cl_view, C.field_of; cb. rewrite (reg_lor _ _ _ RN) by (simpl; auto 12). reflexivity. }
+    reflexivity.
+  - go2 P.
+  - destruct t1; inv_forget F; try solve [go2 P].
+Qed.
+
+(* hoist() does not fire on t: no '(reg)' call at the bottom of the rhs / operand spine of an Infix / Prefix top *)
+Definition not_hoisted (t : T.tree) : bool :=
+  match T.hoist t with
+  | T.Call _ _ _ => match t with T.Call _ _ _ => true | _ => false end
+  | _ => true
+  end.
+
+Lemma classify_agrees_unhoisted : forall t t', forget t = Some t' -> T.has_percent t = false ->
+  not_hoisted t = true -> tc_view t = cl_view_res (C.classify t').
+Proof.
+  intros t t' H P NH.
+  assert (Hh : T.hoist t = t).
+  { destruct (hoist_shape t) as [E | (off & reg & E & R)]; auto.
+    unfold not_hoisted in NH. rewrite E in NH. destruct t; try discriminate NH. reflexivity. }
+  assert (A : C.hoist t' = t').
+  { pose proof (hoist_agrees _ _ H) as A. rewrite Hh, H in A. injection A as A. symmetry. exact A. }
+  assert (V : tc_view t = plain_view t).
+  { unfold tc_view, plain_view, T.classify. destruct t; try reflexivity; rewrite Hh; reflexivity. }
+  rewrite V. unfold cl_view_res, C.classify. rewrite A. apply plain_agree; assumption.
+Qed.
+
+(* the hoisted case: the cascade runs on the fresh call node *)
+Lemma classify_agrees_full : forall t t', forget t = Some t' -> T.has_percent t = false ->
+  tc_view t = cl_view_res (C.classify t').
+Proof.
+  intros t t' H P.
+  destruct (not_hoisted t) eqn:NH; [apply classify_agrees_unhoisted; assumption|].
+  pose proof (hoist_agrees _ _ H) as A.
+  assert (P' : T.has_percent (T.hoist t) = false) by (rewrite has_percent_hoist; exact P).
+  unfold cl_view_res, C.classify. rewrite <- (plain_agree _ _ A P').
+  unfold not_hoisted in NH.
+  destruct (hoist_shape t) as [E | (off & reg & E & R)].
+  { rewrite E in NH. destruct t; discriminate NH. }
+  rewrite E in P'. simpl in P'. apply orb_false_iff in P'. destruct P' as [_ P2].
+  apply has_percent_is in P2. unfold T.is_regish in R. rewrite P2 in R.
+  unfold tc_view, plain_view, T.classify, T.plain_plan.
+  destruct t; try (simpl in NH; discriminate NH); rewrite E; cbn [T.regp T.paren_reg];
+    destruct (T.regp reg); try discriminate R;
+    destruct off; cb; try reflexivity.
+  all: match goal with |- context[String.eqb ?o "@"] => destruct (String.eqb o "@") end; reflexivity.
+Qed.
